@@ -249,13 +249,18 @@ pub fn run(args: &Args) -> Report {
         let sparse = i % 2 == 1;
         let h: u32 = if sparse { rng.range(5, 64) as u32 } else { rng.range(4, 12) as u32 };
         // friendly count: around every layer boundary
-        let nf: u64 = match rng.below(6) {
+        let nf: u64 = match rng.below(8) {
             0 => 0,
             1 => h as u64 + 1,
             2 => h as u64,
             3 => 1000,
+            4 => *rng.pick(&[1u64 << 32, (1u64 << 32) + 1, 1u64 << 40, 1u64 << 63]),
+            5 => u64::MAX,
             _ => rng.range(0, h as u64 + 1),
         };
+        if nf >= 1 << 32 {
+            rep.inc("n_friendly_above_2^32");
+        }
         let p = TreeParams { height: h, n_friendly: nf, hash };
         let n: u128 = 1u128 << h;
         let kmax = if n < 48 { n as u64 } else { 48 };
